@@ -245,7 +245,7 @@ package join
 //@   modifies dsc.join, elems(dsc.join), dsc.passAt, dsc.unreleased, gClock, gIn, gInN, gClosed, gOutN, gDelivPos, gLastDeliv, gLent, gOwned, gStop, gOutClosed, gTick
 
 //@ func Opts.isValid
-//@   ensures [*] (result == nil) <==> (opts.Input != nil && opts.JoinSize != 0)
+//@   ensures [* C03] (result == nil) <==> (opts.Input != nil && opts.JoinSize != 0)
 
 //@ func Opts.normalize
 //@   ensures [* C03 C08 C20 C09 C10 C11] options-are-kept: result.Input == opts.Input && result.JoinSize == opts.JoinSize && result.Released == opts.Released && result.Timeout == opts.Timeout
